@@ -22,14 +22,18 @@ def make(i, seed):
         lb, ub = np.full(D, -np.inf), np.full(D, np.inf)
     elif stratum(i) == "huge":        # huge finite hard bounds used as "no bound"
         lb, ub = np.full(D, -1.0e15), np.full(D, 1.0e15)
+    elif stratum(i) == "lopsided":    # one tight and one very loose hard bound, the minimiser close to the tight one
+        lb, ub = np.full(D, -5.0), np.full(D, 995.0)
+        xstar = rs.uniform(-4.9, -4.2, D)
     x0 = rs.uniform(plb, pub)
     return D, A, xstar, x0, lb, ub, plb, pub
 
 
 def stratum(i):
     """standard: f* = 0, plausible box [-5,5]^D;  offset: the same with a minimum VALUE far from zero (either sign);
-    wide: plausible box [-50,50]^D;  unbounded: no hard bounds;  huge: hard bounds +-1e15."""
-    return ("standard", "offset", "standard", "wide", "unbounded", "huge")[(i // 5) % 6]
+    wide: plausible box [-50,50]^D;  unbounded: no hard bounds;  huge: hard bounds +-1e15;  lopsided: hard box [-5,995]^D, plausible
+    box [-5,5]^D, minimiser within 0.8 of the tight bound."""
+    return ("standard", "offset", "standard", "wide", "unbounded", "huge", "lopsided")[(i // 5) % 7]
 
 
 def offset_of(i, seed):
